@@ -201,6 +201,21 @@ func applyExtra(s *vpShape, extra int) {
 		if len(s.SFs) > 0 {
 			s.SFs[0].BadSig = true
 		}
+	case 7: // the last voting member also votes B under the other spellings of its address (same key)
+		if len(s.SFs) > 0 {
+			last := s.SFs[len(s.SFs)-1].Node
+			for a := 1; a <= nAlias; a++ {
+				s.SFs = append(s.SFs, sfShape{signShape: ms(aliasID(last, a)), Fact: 1})
+			}
+		}
+	case 8: // only spellings other than the member's own address
+		if len(s.SFs) > 0 {
+			last := s.SFs[len(s.SFs)-1].Node
+			s.SFs = s.SFs[:len(s.SFs)-1]
+			for a := 1; a <= nAlias; a++ {
+				s.SFs = append(s.SFs, sfShape{signShape: ms(aliasID(last, a)), Fact: 1})
+			}
+		}
 	}
 }
 
@@ -236,7 +251,13 @@ func corpus() []corpusCase {
 	h1.Tag = "plain-3-of-4"
 	h2 := fromStates(7, kExpel, false, 670, []int{A, A, A, A, A, X, X}, 0, 0, 0)
 	h2.Tag = "expel-2-of-7"
-	return []corpusCase{{4, p1, p2}, {4, p1, q2}, {4, a1, a2}, {4, s1, s2}, {4, h1, nil}, {7, h2, nil}}
+	// one member signing under differently cased spellings of its own address (same key) against three honest nodes
+	c1 := fromStates(4, kPlain, false, 670, []int{O, B, O, O}, 1, 0, 1)
+	c1.SFs = append(c1.SFs, sfShape{signShape: ms(aliasID(1, 1)), Fact: 1}, sfShape{signShape: ms(aliasID(1, 3)), Fact: 1})
+	c1.Tag = "alias-spellings-of-no01-vote-B"
+	c2 := fromStates(4, kPlain, false, 670, []int{A, O, A, A}, 0, 0, 1)
+	c2.Tag = "plain-acd-vote-A"
+	return []corpusCase{{4, c1, c2}, {4, p1, p2}, {4, p1, q2}, {4, a1, a2}, {4, s1, s2}, {4, h1, nil}, {7, h2, nil}}
 }
 
 func genExhaustive(o *vh.Opts, r *vh.Rand, add func(n int, group string, s *vpShape)) {
@@ -245,7 +266,7 @@ func genExhaustive(o *vh.Opts, r *vh.Rand, add func(n int, group string, s *vpSh
 	for n := 1; n <= 4; n++ {
 		eachState(n, 3, func(st []int) {
 			for _, claim := range []int{0, 1, -1} {
-				for extra := 0; extra <= 6; extra++ {
+				for extra := 0; extra <= 8; extra++ {
 					if extra > 0 && claim != 1 && !thorough {
 						continue
 					}
@@ -442,7 +463,7 @@ func mutate(r *vh.Rand, n int, s *vpShape) string {
 		}
 		return r.Intn(len(s.Expels))
 	}
-	switch m := r.Intn(24); m {
+	switch m := r.Intn(28); m {
 	case 0:
 		s.SFs = append(s.SFs, sfShape{signShape: ms(outBase + r.Intn(nOuts)), Fact: r.Intn(2)})
 		return "outsider-voter"
@@ -578,8 +599,26 @@ func mutate(r *vh.Rand, n int, s *vpShape) string {
 			s.Expels[i].Target = outBase + r.Intn(nOuts)
 		}
 		return "expel-outsider-target"
-	default:
+	case 23:
 		s.SFs = nil
 		return "no-sign-facts"
+	case 24:
+		s.SFs = append(s.SFs, sfShape{signShape: ms(aliasID(r.Intn(n), r.Range(1, nAlias))), Fact: r.Intn(2)})
+		return "alias-voter"
+	case 25:
+		if i := pickSF(); i >= 0 && s.SFs[i].Node < outBase {
+			s.SFs[i].Node = aliasID(s.SFs[i].Node, r.Range(1, nAlias))
+		}
+		return "voter-renamed-alias"
+	case 26:
+		if i := pickE(); i >= 0 {
+			s.Expels[i].Signs = append(append([]signShape{}, s.Expels[i].Signs...), ms(aliasID(r.Intn(n), r.Range(1, nAlias))))
+		}
+		return "expel-alias-signer"
+	default:
+		if i := pickE(); i >= 0 && s.Expels[i].Target < outBase {
+			s.Expels[i].Target = aliasID(s.Expels[i].Target, r.Range(1, nAlias))
+		}
+		return "expel-alias-target"
 	}
 }
